@@ -17,7 +17,11 @@ def py_values(n, rules, order=None):
     outs = []
     seq = rules if order is None else [rules[i] for i in order]
     for p, cs, ss in seq:
-        tb.add_rule_key(ForestRuleKey(p, cs, ss, RuleBucket.NORMAL))
+        # the bucket is a label of the key: which terms are computable does not depend on it (derived from the key, so that a
+        # history is the same however it is ordered)
+        bucket = (RuleBucket.VERIFICATION if not cs else
+                  [RuleBucket.NORMAL, RuleBucket.REVERSE, RuleBucket.EQUIV, RuleBucket.NORMAL, RuleBucket.REVERSE][(p * 7 + len(cs) * 3 + sum(abs(x) for x in ss)) % 5])
+        tb.add_rule_key(ForestRuleKey(p, cs, ss, bucket))
         f = tb.function
         vals = ["inf" if (c in f and f[c] is None) else str(f.get(c, 0)) for c in range(n)]
         # is_pumping and pumping_subuniverse must be consistent with the function
